@@ -117,12 +117,13 @@ def _judge_group(name, typ, key, got, e, report):
         return
     if typ in e["labels"]:
         s = e["labels"][typ]
-        need = list(s.consumed)
-        allowed = need + list(s.pending)
-        if not (_is_prefix(need, coords) and _is_prefix(coords, allowed)):
+        # every element the co-iteration fetched is an access: the ones it compared / matched and the
+        # look-ahead element it had read when the other side ran out
+        need = list(s.consumed) + list(s.pending)
+        if coords != need:
             report("C16.one-row-per-access",
-                   f"trace {name} at {key}: rows for coordinates {coords}; the co-iteration accessed {need}"
-                   + (f" (+ look-ahead {s.pending})" if s.pending else ""))
+                   f"trace {name} at {key}: rows for coordinates {coords}; the co-iteration accessed {list(s.consumed)}"
+                   + (f" and had fetched {s.pending} when the other side ran out" if s.pending else ""))
             return
         if getattr(s, "lookup", False):
             for c, pos in got:
